@@ -164,6 +164,47 @@ impl CaseCtx {
         p.outs.push(line);
     }
 
+    /// observable state right before a `reopen` closes the database
+    pub fn reopen_before<S: StorageData>(&mut self, db: &DbImpl<S>) -> Snapshot {
+        self.st.evaluations += 1;
+        self.fresh_snapshot(db)
+    }
+
+    /// the database was closed and reopened (or was not persistent): print `ok`, compare the state
+    pub fn reopen_done<S: StorageData>(&mut self, before: Option<&Snapshot>, db: &DbImpl<S>) {
+        self.emit("ok".to_string());
+        self.snap_cache = None;
+        if let Some(b) = before {
+            let a = self.fresh_snapshot(db);
+            let e = (b.render_elems(), a.render_elems());
+            let i = (b.render_indexes(), a.render_indexes());
+            let al = (b.render_aliases(), a.render_aliases());
+            let diff = if e.0 != e.1 {
+                Some(("elements", diff_pair(&e.0, &e.1)))
+            } else if i.0 != i.1 {
+                Some(("indexes", diff_pair(&i.0, &i.1)))
+            } else if al.0 != al.1 {
+                Some(("aliases", (shorten(&al.0), shorten(&al.1))))
+            } else if b.render() != a.render() {
+                Some(("node-count", (shorten(&b.render()), shorten(&a.render()))))
+            } else {
+                None
+            };
+            if let Some((what, (exp, obs))) = diff {
+                let key = format!("{}/state-differs-after-reopen/{what}", self.prop.name());
+                self.violate(&key, "closing and reopening the database file preserves the database", exp, obs);
+            }
+        }
+    }
+
+    /// reopening failed (error or panic): print it, report it; the case cannot continue
+    pub fn reopen_failed(&mut self, out: String, site: &str, detail: String) {
+        self.emit(out);
+        self.st.bump("reopen_failures", 1);
+        let key = format!("{}/reopen-fails/{site}", self.prop.name());
+        self.violate(&key, "closing and reopening the database file preserves the database", "database reopens".to_string(), detail);
+    }
+
     fn next_op(&mut self, mode: Mode) -> Option<Op> {
         let op = match &mut self.source {
             Source::Replay(q) => parse_line(&q.pop_front()?),
@@ -246,12 +287,13 @@ impl CaseCtx {
         while let Some(op) = self.next_op(Mode::Top) {
             match op {
                 Op::Reopen => {
-                    self.emit("ok".to_string());
                     self.snap_cache = None;
                     self.st.bump("reopen_lines", 1);
                     if self.exit_on_reopen {
+                        // the caller closes / reopens the database and reports through `reopen_done`
                         return RunExit::Reopen;
                     }
+                    self.emit("ok".to_string());
                 }
                 Op::Bad(_) | Op::TxnFail | Op::TxnCommit | Op::Case(_) => {
                     self.emit("bad-op".to_string())
